@@ -23,6 +23,7 @@ type Allocator struct {
 	clusterConn *cluster.Conn
 
 	updatesC     chan interface{}
+	updatesQueue chan interface{}
 	partitions   map[uuid.UUID]*partition
 	partitionsMu *sync.RWMutex
 }
@@ -32,7 +33,7 @@ type watchPartitionUpdate struct {
 }
 
 type unwatchPartitionUpdate struct {
-	partition *partition
+	id uuid.UUID
 }
 
 func NewAllocator(clusterConn *cluster.Conn) *Allocator {
@@ -44,13 +45,46 @@ func NewAllocator(clusterConn *cluster.Conn) *Allocator {
 		clusterConn: clusterConn,
 
 		updatesC:     make(chan interface{}),
+		updatesQueue: make(chan interface{}),
 		partitions:   make(map[uuid.UUID]*partition),
 		partitionsMu: &sync.RWMutex{},
 	}
 
+	go a.forwardUpdates()
 	go a.run()
 
 	return a
+}
+
+// Queues watch / unwatch updates between the catalogue, which sends them while it applies an entry of
+// the zero group, and the loop, which may be waiting for that very group to apply one of its proposals:
+// a send never waits for the loop
+func (this *Allocator) forwardUpdates() {
+	defer close(this.updatesQueue)
+
+	queue := make([]interface{}, 0)
+	for {
+		if len(queue) == 0 {
+			update, ok := <-this.updatesC
+			if !ok {
+				return
+			}
+			queue = append(queue, update)
+			continue
+		}
+
+		select {
+		case update, ok := <-this.updatesC:
+			if !ok {
+				return
+			}
+			queue = append(queue, update)
+		case this.updatesQueue <- queue[0]:
+			queue = queue[1:]
+		case <-this.ctx.Done():
+			return
+		}
+	}
 }
 
 func (this *Allocator) Stop() {
@@ -58,24 +92,37 @@ func (this *Allocator) Stop() {
 	close(this.updatesC)
 }
 
+// watch / unwatch only queue the update; the loop keeps the set of watched partitions,
+// so its node change handlers see a partition only after its raft group has been loaded
 func (this *Allocator) watch(partition *partition) {
-	this.partitionsMu.Lock()
-	defer this.partitionsMu.Unlock()
-
-	if _, exists := this.partitions[partition.id]; !exists {
-		this.partitions[partition.id] = partition
-		this.updatesC <- &watchPartitionUpdate{partition}
-	}
+	this.updatesC <- &watchPartitionUpdate{partition}
 }
 
 func (this *Allocator) unwatch(id uuid.UUID) {
+	this.updatesC <- &unwatchPartitionUpdate{id}
+}
+
+func (this *Allocator) addWatched(partition *partition) bool {
 	this.partitionsMu.Lock()
 	defer this.partitionsMu.Unlock()
 
-	if partition, exists := this.partitions[id]; exists {
-		delete(this.partitions, id)
-		this.updatesC <- &unwatchPartitionUpdate{partition}
+	if _, exists := this.partitions[partition.id]; exists {
+		return false
 	}
+	this.partitions[partition.id] = partition
+	return true
+}
+
+func (this *Allocator) removeWatched(id uuid.UUID) *partition {
+	this.partitionsMu.Lock()
+	defer this.partitionsMu.Unlock()
+
+	partition, exists := this.partitions[id]
+	if !exists {
+		return nil
+	}
+	delete(this.partitions, id)
+	return partition
 }
 
 func (this *Allocator) getPartition(id uuid.UUID) (*partition, error) {
@@ -119,14 +166,14 @@ func (this *Allocator) run() {
 			case cluster.NodesChangeRemoveNode:
 				this.removeNodeFromPartitions(change.NodeId)
 			}
-		case update := <-this.updatesC:
+		case update := <-this.updatesQueue:
 			if update == nil {
 				continue
 			}
 			switch update.(type) {
 			case *watchPartitionUpdate:
 				_partition := update.(*watchPartitionUpdate).partition
-				if this.isPartitionAssignedToNode(_partition) {
+				if this.addWatched(_partition) && this.isPartitionAssignedToNode(_partition) {
 					func(partition *partition) {
 						defer func() {
 							if r := recover(); r != nil {
@@ -137,8 +184,8 @@ func (this *Allocator) run() {
 					}(_partition)
 				}
 			case *unwatchPartitionUpdate:
-				_partition := update.(*unwatchPartitionUpdate).partition
-				if this.isPartitionAssignedToNode(_partition) {
+				_partition := this.removeWatched(update.(*unwatchPartitionUpdate).id)
+				if _partition != nil && this.isPartitionAssignedToNode(_partition) {
 					func(partition *partition) {
 						defer func() {
 							if r := recover(); r != nil {
@@ -173,11 +220,21 @@ func (this *Allocator) canModifyPartition(partition *partition) bool {
 	return this.clusterConn.Id() == this.clusterConn.NodeIds()[0]
 }
 
-func (this *Allocator) addNodeToPartitions(nodeId uint64) {
+// The partitions are copied: the lock must not be held while a proposal waits for the zero group,
+// whose apply loop takes it in watch / unwatch
+func (this *Allocator) watchedPartitions() []*partition {
 	this.partitionsMu.RLock()
 	defer this.partitionsMu.RUnlock()
 
+	partitions := make([]*partition, 0, len(this.partitions))
 	for _, partition := range this.partitions {
+		partitions = append(partitions, partition)
+	}
+	return partitions
+}
+
+func (this *Allocator) addNodeToPartitions(nodeId uint64) {
+	for _, partition := range this.watchedPartitions() {
 		if this.canModifyPartition(partition) && partition.isUnderReplicated() {
 			partition.proposeAddNode(this.ctx, nodeId)
 		}
@@ -185,10 +242,7 @@ func (this *Allocator) addNodeToPartitions(nodeId uint64) {
 }
 
 func (this *Allocator) removeNodeFromPartitions(nodeId uint64) {
-	this.partitionsMu.RLock()
-	defer this.partitionsMu.RUnlock()
-
-	for _, partition := range this.partitions {
+	for _, partition := range this.watchedPartitions() {
 		if this.canModifyPartition(partition) {
 			partition.proposeRemoveNode(this.ctx, nodeId)
 		}
